@@ -194,6 +194,11 @@ func (fs *FS) rename(oldname, newname string) error {
 		return &hackpadfs.LinkError{Op: "rename", Old: oldname, New: newname, Err: hackpadfs.ErrNotImplemented}
 	}
 
+	if newInfo, err := hackpadfs.Stat(newMount, newSubPath); err == nil && newInfo.IsDir() {
+		// like os.Rename: a file cannot replace a directory
+		return &hackpadfs.LinkError{Op: "rename", Old: oldname, New: newname, Err: hackpadfs.ErrExist}
+	}
+
 	oldFile, err := oldMount.Open(oldSubPath)
 	if err != nil {
 		return err
